@@ -13,7 +13,7 @@ import json
 import os
 import re
 
-from synq import (walk, show, show_stmts, strs, last_seg, pat_alts, pat_head, tail_expr, matches_of, mcalls, calls,
+from synq import (walk, show, show_stmts, strs, paths, last_seg, pat_alts, pat_head, tail_expr, matches_of, mcalls, calls,
                   macros, lit_val, AnchorMissing)
 import tables
 from C02 import dialect_names, sql_impls, ora
@@ -436,6 +436,96 @@ def r7(ctx, rep):
         rep.check(ok, f"recogniser:{rec}:bottom-unused", f"preprocess::{rec} must skip the rewrite (`continue`) when any column of the bottom relation is in the output: "
                   "after the rewrite those columns do not exist, so they silently vanish from the result", file=f["file"], line=f["l"], fn=f["path"])
     _adjacent_distinct(ctx, rep)
+    _only_equalities(ctx, rep)
+    _pairs_by_position(ctx, rep)
+
+
+def _only_equalities(ctx, rep):
+    """`collect_equals` turns a conjunction of equalities into two lists; a condition with any other conjunct (`a.x == b.x && a.y > 5`)
+    is not a set operation, so the fallback arm of its match over the expression kind must leave the function without a pair of lists."""
+    syn = ctx.syn
+    f = syn.fn("preprocess::collect_equals", crate="prqlc")
+    ms = [m for m in matches_of(f["body"]) if any("std.eq" in strs(a.get("guard") or {}) or "std.eq" in show(a.get("guard"), maxdepth=10) for a in m["arms"])]
+    if not ms:
+        rep.bad("recogniser:collect_equals:only-equalities", "the match of collect_equals that recognises `std.eq` was not found", file=f["file"], line=f["l"], fn=f["path"])
+        return
+    m = ms[0]
+    fallback = [a for a in m["arms"] if any(alt.get("k") == "p_wild" or (alt.get("k") == "p_ident" and not alt.get("sub")) for alt in pat_alts(a["pat"]))]
+    ok = True
+    why = "no fallback arm (the match is exhaustive over the kinds it accepts)"
+    for a in fallback:
+        b = a["body"]
+        leaves = [b] if b.get("k") != "block" else ([tail_expr(b)] if tail_expr(b) is not None else []) + [s for s in b.get("s", []) if s.get("k") in ("return", "macro")]
+        div = [x for x in leaves if x is not None and (x.get("k") == "return" or (x.get("k") == "macro" and x.get("n") in ("bail", "unreachable", "panic")))]
+        if not div:
+            ok, why = False, f"the `_` arm is `{show(b, maxdepth=6)}`: the conjunct is skipped and the remaining equalities are returned"
+        else:
+            for d in div:
+                t = show(d.get("e"), maxdepth=8) if d.get("k") == "return" else ""
+                if "Some" in t or "lefts" in t:
+                    ok, why = False, f"the `_` arm returns `{t}`"
+                else:
+                    why = f"the `_` arm leaves with `{show(d, maxdepth=8)}`"
+    rep.check(ok, "recogniser:collect_equals:only-equalities",
+              "collect_equals must give up on a condition that contains anything but equalities joined by `and`: " + why +
+              " — `join b (a.x == b.x && a.y == b.y && a.x > 5)` over all columns would be rewritten into INTERSECT / EXCEPT and the extra condition lost",
+              detail=why, file=f["file"], line=f["l"], fn=f["path"])
+
+
+def _pairs_by_position(ctx, rep):
+    """A set operation matches the columns of its operands by position; the join it is recognised from must therefore equate column i of the
+    top with column i of the bottom. A test that looks at each side of the equalities separately (`all_in(top, lefts) && all_in(bottom, rights)`)
+    cannot tell `a.x == b.y && a.y == b.x` from the positional pairing: some predicate of the skip guards has to see both column lists and both sides."""
+    syn = ctx.syn
+    for rec in ("intersect", "except"):
+        f = syn.fn("preprocess::" + rec, crate="prqlc")
+        # roles: top = columns of the pipeline so far, bottom = columns of the joined relation, (L, R) = sides of the join condition's equalities
+        top = bottom = None
+        cond_var = None
+        for n in walk(f["body"]):
+            if n.get("k") == "local" and n.get("else") is not None and n["pat"].get("k") == "p_struct" and last_seg(n["pat"]["p"]) == "Join":
+                d = dict((a, b) for a, b in n["pat"]["f"])
+                if "filter" in d:
+                    cond_var = d["filter"].get("n") or "filter"
+            if n.get("k") == "local" and n.get("init") is not None and n["pat"].get("k") == "p_ident":
+                t = show(n["init"], maxdepth=10)
+                if "determine_select_columns(" in t and "[" in t:
+                    top = n["pat"]["n"]
+                elif "table_ref.columns" in t:
+                    bottom = n["pat"]["n"]
+        sides = None
+        for n in walk(f["body"]):
+            if n.get("k") == "local" and n.get("init") is not None and cond_var:
+                t = show(n["init"], maxdepth=8)
+                if re.match(r"collect_equals\(&?" + re.escape(cond_var) + r"\)", t):
+                    names = [x["n"] for x in walk(n["pat"]) if x.get("k") == "p_ident"]
+                    if len(names) == 2:
+                        sides = names
+        if not (top and bottom and sides):
+            rep.bad(f"recogniser:{rec}:pairs-by-position", f"roles not found in preprocess::{rec} (top={top}, bottom={bottom}, join condition={cond_var}, sides={sides}) — fail closed",
+                    file=f["file"], line=f["l"], fn=f["path"])
+            continue
+        want = {top, bottom, sides[0], sides[1]}
+        seen = []
+        for n in walk(f["body"]):
+            if n.get("k") == "if" and any(x.get("k") == "continue" for x in walk(n["t"])):
+                for c in walk(n["c"]):
+                    if c.get("k") in ("call", "mcall"):
+                        mentioned = {p for p in paths(c) if p in want}
+                        if sides[0] in mentioned or sides[1] in mentioned:
+                            seen.append((show(c, maxdepth=8), mentioned))
+        ok = any(m == want for _, m in seen)
+        rep.check(ok, f"recogniser:{rec}:pairs-by-position",
+                  f"preprocess::{rec}: no skip guard tests the pairing of `{top}` and `{bottom}` through the equalities (`{sides[0]}`, `{sides[1]}`) in one predicate "
+                  f"(found {[s for s, _ in seen]}): tests of one side at a time accept `x == b.y && y == b.x`, which is not the positional INTERSECT / EXCEPT",
+                  detail=[s for s, _ in seen], file=f["file"], line=f["l"], fn=f["path"])
+    # the predicate itself: it compares a position in the top with a position in the bottom
+    g = syn.fn_opt("preprocess::pairs_by_position", crate="prqlc")
+    if g is not None:
+        t = show_stmts(g["body"], maxdepth=14) if g["body"].get("k") == "block" else show(g["body"], maxdepth=14)
+        npos = len([1 for n in walk(g["body"]) if n.get("k") == "mcall" and n["m"] in ("position", "find_position", "enumerate", "zip")])
+        rep.check(npos >= 2, "recogniser:pairs_by_position:compares-positions", "pairs_by_position no longer relates positions of the two column lists "
+                  f"({npos} position / zip / enumerate step(s))", file=g["file"], line=g["l"], fn=g["path"])
 
 
 def _adjacent_distinct(ctx, rep):
